@@ -370,6 +370,7 @@ Proof.
       try reflexivity. apply zlist_tbl.
   - apply (tbl_ext _ (fun a b => zlist_cmp (match a with VBytes s => s | _ => [] end) (match b with VBytes s => s | _ => [] end)));
       try reflexivity. apply zlist_tbl.
+  - unfold tbl; cbn; repeat split; congruence.
 Qed.
 
 Lemma scalar_anti : forall a b, is_scalar a = true -> is_scalar b = true ->
@@ -383,6 +384,7 @@ Proof.
   - destruct b, b0; reflexivity.
   - cbn. apply zlist_anti.
   - cbn. apply zlist_anti.
+  - reflexivity.
 Qed.
 
 Theorem vcmp_tbl_n a b c : wfn a = true -> wfn b = true -> wfn c = true -> tbl vcmp a b c.
@@ -552,6 +554,7 @@ Definition vhash_body (v : value) : list Z :=
   | VMap kvs => 0 :: hflat (flat_pairs kvs)
   | VPlain _ => [0]
   | VInt _ _ | VFloat _ => num_hash v
+  | VInvalid d => le64 3 ++ le64 1 ++ flat_map utf8 d ++ [255]
   end.
 
 Lemma vhash_eqn v : vhash v = vhash_body v.
@@ -710,6 +713,7 @@ Proof.
       [apply Z.compare_eq_iff; lia | unfold cmp_f64; rewrite E; reflexivity | apply zlist_cmp_eq; apply zlist_eqb_eq; exact E]).
   - cbn in *. apply zlist_cmp_eq. apply zlist_eqb_eq. exact E.
   - cbn in *. apply zlist_cmp_eq. apply zlist_eqb_eq. exact E.
+  - reflexivity.
 Qed.
 
 (* == between scalars of different kinds happens only between a bool and a number *)
@@ -846,6 +850,7 @@ Proof.
     + apply (Forall_and (wf_items _ Wa) (nan_free_items _ NF)).
     + apply (wf_items _ Wb).
   - destruct vb; try discriminate R. cbn [vbody veq_body] in *. apply zlist_eqb_eq. apply zlist_cmp_eq. exact C.
+  - discriminate NF.
 Qed.
 
 Definition kmem (k : value) (l : list (value * value)) : bool :=
@@ -1007,6 +1012,11 @@ Proof.
     + apply (wf_items _ Wa).
     + apply (wf_items _ Wb).
   - destruct vb; try discriminate E. cbn [veq_body] in E. cbn. apply zlist_cmp_eq. apply zlist_eqb_eq. exact E.
+  - (cbn [veq_body] in E;
+        match type of E with scalar_eq ?x _ = true =>
+          pose proof (scalar_eq_scalar x vb eq_refl E) as Sb; destruct (scalar_B_rank x vb eq_refl E) as [R|X] end;
+        [ rewrite R, Z.compare_refl; destruct vb; try discriminate Sb; try discriminate R; cbn [vbody]; apply scalar_B_same; auto
+        | unfold cross_body in G; rewrite X in G; discriminate G ]).
 Qed.
 
 Lemma rne_i64_max : rne_int i64_max = 2 ^ 63. Proof. vm_compute. reflexivity. Qed.
@@ -1080,6 +1090,7 @@ Proof.
       destruct (zero_pattern _ Wa Z1) as [-> | ->]; destruct (zero_pattern _ Wb Z2) as [-> | ->]; vm_compute; reflexivity.
   - cbn in E. apply zlist_eqb_eq in E. subst. reflexivity.
   - cbn in E. apply zlist_eqb_eq in E. subst. reflexivity.
+  - discriminate E.
 Qed.
 
 Lemma all2_hpairs xs : forall ys i,
@@ -1136,6 +1147,7 @@ Proof.
     + apply (Forall_and (wf_items _ Wa) (nan_free_items _ NF)).
     + apply (wf_items _ Wb).
   - destruct vb; try discriminate E. rewrite !vhash_eqn. reflexivity.
+  - discriminate NF.
 Qed.
 
 (* == is symmetric (outside the known classes, NaN aside) *)
